@@ -264,6 +264,13 @@ pub fn run_c10(a: &Args) {
             ctx::sample_tagged(&case.specs.kind_label(), || case.json());
         }
     }
+    // graphs of 20 000..200 000 nodes made of rings and paths (long cycles, deep search depth),
+    // inside pools of 1 and 4 threads
+    for k in 0..(if a.thorough { 6 } else { 2 }) {
+        if ctx::mine(total + k) {
+            c10_huge(a, k);
+        }
+    }
 }
 
 // ============================================================================ C11
@@ -302,6 +309,130 @@ fn c11_case(rng: &mut Rng, multi: bool) -> GCase {
         }
     }
     case
+}
+
+/// Rings, paths and isolated nodes with shuffled names: the components are known by construction.
+fn c10_huge(a: &Args, k: u64) {
+    let mut rng = Rng::new(mix(a.seed ^ 0xC10_B16, k));
+    let directed = k % 2 == 0;
+    let mut sizes_rings: Vec<usize> = vec![];
+    let mut sizes_paths: Vec<usize> = vec![];
+    match k % 3 {
+        0 => sizes_rings.push(rng.range(100_000, 200_000)),
+        1 => sizes_paths.push(rng.range(100_000, 200_000)),
+        _ => {
+            for _ in 0..rng.range(5, 30) {
+                sizes_rings.push(rng.range(3, 4000));
+                sizes_paths.push(rng.range(2, 4000));
+            }
+        }
+    }
+    if rng.coin() {
+        sizes_rings.push(24_000 + rng.below(2000));
+    }
+    let isolated = rng.range(1, 200);
+    let n: usize = sizes_rings.iter().sum::<usize>() + sizes_paths.iter().sum::<usize>() + isolated;
+    let mut ids: Vec<usize> = (0..n).collect();
+    rng.shuffle(&mut ids);
+    let name = |i: usize| format!("v{:06}", i);
+    let mut g: GS = Graph::new(Specs::kind(directed, false, false).to_real());
+    for i in 0..n {
+        g.add_node(graphrs::Node::from_name(name(i)));
+    }
+    let mut weak: Vec<Vec<usize>> = vec![];
+    let mut strong: Vec<Vec<usize>> = vec![];
+    let mut next = 0usize;
+    let mut add = |g: &mut GS, u: usize, v: usize, flip: bool| {
+        let (x, y) = if flip { (v, u) } else { (u, v) };
+        g.add_edge(std::sync::Arc::new(graphrs::Edge { u: name(x), v: name(y), attributes: None, weight: f64::NAN })).expect("permissive specs");
+    };
+    for sz in &sizes_rings {
+        let mem: Vec<usize> = ids[next..next + sz].to_vec();
+        next += sz;
+        for i in 0..*sz {
+            add(&mut g, mem[i], mem[(i + 1) % sz], false);
+        }
+        weak.push(mem.clone());
+        strong.push(mem);
+    }
+    for sz in &sizes_paths {
+        let mem: Vec<usize> = ids[next..next + sz].to_vec();
+        next += sz;
+        for i in 1..*sz {
+            // alternate directions on every third path: weakly connected only through both directions
+            add(&mut g, mem[i - 1], mem[i], sz % 3 == 0 && i % 2 == 0);
+        }
+        weak.push(mem.clone());
+        for x in mem {
+            strong.push(vec![x]);
+        }
+    }
+    for x in &ids[next..] {
+        weak.push(vec![*x]);
+        strong.push(vec![*x]);
+    }
+    ctx::case_desc(json!({"family": "huge rings, paths and isolated nodes", "n": n, "directed": directed, "rings": sizes_rings, "paths": sizes_paths.len(), "isolated": isolated}));
+    let kind = kind_class(&g);
+    let canon = |parts: &[Vec<usize>]| -> BTreeSet<Vec<usize>> {
+        parts.iter().map(|p| { let mut q = p.clone(); q.sort(); q }).collect()
+    };
+    let got_canon = |parts: &[HashSet<String>]| -> BTreeSet<Vec<usize>> {
+        parts.iter().map(|p| { let mut q: Vec<usize> = p.iter().map(|s| s[1..].parse::<usize>().unwrap_or(usize::MAX)).collect(); q.sort(); q }).collect()
+    };
+    let want_weak = canon(&weak);
+    let want_strong = canon(&strong);
+    for threads in [1usize, 4] {
+        let pool = rayon::ThreadPoolBuilder::new().num_threads(threads).build().expect("pool");
+        ctx::count(&format!("reach:more-than-20000-nodes:pool-of-{}", threads));
+        let fail = |func: &str, class: &str, detail: Value| {
+            ctx::violation(&format!("C10|{}|{}|{}", func, class, kind), &format!("{}: {} (graph of {} nodes, pool of {} threads)", func, class, n, threads), json!({"detail": detail, "n": n, "threads": threads}));
+        };
+        if directed {
+            for (func, want) in [("weakly_connected_components", &want_weak), ("strongly_connected_components", &want_strong)] {
+                ctx::eval(1);
+                let r = guard(func, || pool.install(|| if func.starts_with('w') { components::weakly_connected_components(&g) } else { components::strongly_connected_components(&g) }));
+                match r {
+                    Ok(Ok(parts)) => {
+                        let total: usize = parts.iter().map(|p| p.len()).sum();
+                        if total != n || &got_canon(&parts) != want {
+                            fail(func, "not-the-components-known-by-construction", json!({"sets": parts.len(), "want_sets": want.len(), "members_listed": total}));
+                        }
+                    }
+                    Ok(Err(e)) => fail(func, &format!("error:{}", err_name(&e.kind)), json!(null)),
+                    Err(c) => fail(func, &c.class(), c.json()),
+                }
+            }
+        } else {
+            ctx::eval(2);
+            match guard("connected_components", || pool.install(|| components::connected_components(&g))) {
+                Ok(Ok(parts)) => {
+                    let total: usize = parts.iter().map(|p| p.len()).sum();
+                    if total != n || got_canon(&parts) != want_weak {
+                        fail("connected_components", "not-the-components-known-by-construction", json!({"sets": parts.len(), "want_sets": want_weak.len(), "members_listed": total}));
+                    }
+                }
+                Ok(Err(e)) => fail("connected_components", &format!("error:{}", err_name(&e.kind)), json!(null)),
+                Err(c) => fail("connected_components", &c.class(), c.json()),
+            }
+            match guard("number_of_connected_components", || pool.install(|| components::number_of_connected_components(&g))) {
+                Ok(Ok(c)) if c == want_weak.len() => {}
+                Ok(other) => fail("number_of_connected_components", "wrong-count", json!({"got": format!("{:?}", other.map_err(|e| err_name(&e.kind))), "want": want_weak.len()})),
+                Err(c) => fail("number_of_connected_components", &c.class(), c.json()),
+            }
+        }
+        // breadth-first search from a node of the largest ring / path
+        let start = weak.iter().max_by_key(|p| p.len()).map(|p| p[p.len() / 2]).unwrap_or(0);
+        ctx::eval(1);
+        match guard("breadth_first_search", || pool.install(|| g.breadth_first_search(&name(start)))) {
+            Ok(v) => {
+                if v.first() != Some(&name(start)) || v.len() != v.iter().collect::<HashSet<_>>().len() {
+                    fail("breadth_first_search", "not-x-then-every-reachable-node-once", json!({"listed": v.len()}));
+                }
+            }
+            Err(c) => fail("breadth_first_search", &c.class(), c.json()),
+        }
+    }
+    ctx::nontrivial(mix(0xB16, k));
 }
 
 pub fn run_c11(a: &Args) {
@@ -566,6 +697,69 @@ fn oracle_is_partition(d: &Dense, fam: &[HashSet<String>]) -> bool {
     seen.len() == d.n
 }
 
+/// A node-name type that is not a string: ordered, hashed and compared by (id, label), printed as
+/// its label only - and several nodes share a label.
+#[derive(Clone, Debug, PartialEq, Eq, Hash, PartialOrd, Ord)]
+struct Tagged {
+    id: u32,
+    label: &'static str,
+}
+
+impl std::fmt::Display for Tagged {
+    fn fmt(&self, f: &mut std::fmt::Formatter<'_>) -> std::fmt::Result {
+        write!(f, "{}", self.label)
+    }
+}
+
+/// The graph of `case` with `Tagged` names: true partitions must be accepted and valued by the
+/// same formula, near-partitions refused.
+fn c12_tagged_names(case: &GCase, d: &Dense, rng: &mut Rng, kind: &str) {
+    let n = d.n;
+    let tag = |i: usize| Tagged { id: (n - i) as u32, label: ["x", "y", "x y"][i % 3] };
+    let mut g: Graph<Tagged, ()> = Graph::new(case.effective_specs().to_real());
+    for i in 0..n {
+        g.add_node(graphrs::Node::from_name(tag(i)));
+    }
+    for (u, v, w) in &d.edges {
+        let _ = g.add_edge(std::sync::Arc::new(graphrs::Edge { u: tag(*u), v: tag(*v), attributes: None, weight: *w }));
+    }
+    if g.get_all_edges().len() != d.edges.len() {
+        return; // a duplicate policy acted differently on the re-listed edges: not comparable
+    }
+    let k = rng.range(1, n.min(4));
+    let comm: Vec<usize> = (0..n).map(|_| rng.below(k)).collect();
+    let mut fam: Vec<HashSet<Tagged>> = vec![HashSet::new(); k];
+    for i in 0..n {
+        fam[comm[i]].insert(tag(i));
+    }
+    ctx::eval(3);
+    ctx::count("reach:node-names-of-a-non-string-type-with-shared-labels");
+    let detail = || json!({"graph": case.json(), "communities": comm, "names": "Tagged { id: n - i, label: [x, y, x y][i % 3] }, printed as the label"});
+    match guard("is_partition", || partitions::is_partition(&g, &fam)) {
+        Ok(true) => {}
+        Ok(false) => ctx::violation(&format!("C12|is_partition|rejected-partition|{}", kind), "is_partition rejected a true partition (node names of a non-string type)", detail()),
+        Err(c) => ctx::violation(&format!("C12|is_partition|{}|{}", c.class(), kind), "is_partition panicked", json!({"caught": c.json(), "input": detail()})),
+    }
+    let weighted = case.wclass.weighted() && !d.any_nan;
+    let want = oracle::modularity(d, &comm, weighted, 1.0);
+    if want.is_finite() && !d.edges.is_empty() {
+        match guard("modularity", || partitions::modularity(&g, &fam, weighted, Some(1.0))) {
+            Ok(Ok(q)) if approx(q, want) => {}
+            Ok(Ok(q)) => ctx::violation(&format!("C12|modularity|value-differs-from-newman-formula|{}", kind), "modularity differs from Newman's formula (node names of a non-string type)", json!({"got": q, "want": want, "input": detail()})),
+            Ok(Err(e)) => ctx::violation(&format!("C12|modularity|error-on-true-partition:{}|{}", err_name(&e.kind), kind), "modularity refused a true partition (node names of a non-string type)", detail()),
+            Err(c) => ctx::violation(&format!("C12|modularity|{}|{}", c.class(), kind), "modularity panicked", json!({"caught": c.json(), "input": detail()})),
+        }
+    }
+    // a near-partition: one node listed twice
+    if k >= 1 && n >= 2 {
+        let mut bad = fam.clone();
+        bad.push([tag(0)].into_iter().collect());
+        if let Ok(true) = guard("is_partition", || partitions::is_partition(&g, &bad)) {
+            ctx::violation(&format!("C12|is_partition|accepted-non-partition|{}", kind), "is_partition accepted a family listing a node twice (node names of a non-string type)", detail());
+        }
+    }
+}
+
 pub fn run_c12(a: &Args) {
     let kinds = kinds8();
     // (a) exhaustive small scope for is_partition: node sets of size 0..=4 (3 in quick) plus one
@@ -644,7 +838,17 @@ pub fn run_c12(a: &Args) {
             continue;
         }
         let mut rng = Rng::new(mix(a.seed ^ 0xC12, idx));
-        let case = if r % 250 == 249 {
+        let case = if r % 300 == 151 {
+            // one community with more than a thousand inner edges (parallel edges of a multigraph)
+            let specs = Specs::kind(rng.coin(), true, rng.coin());
+            let n = rng.range(4, 9);
+            let names = scrambled_names(n, &mut rng);
+            let m = *rng.pick(&[1030usize, 1100, 1500, 2049, 2500, 2600]);
+            let wclass = *rng.pick(&[WClass::Exact, WClass::Generic]);
+            let edges: Vec<(usize, usize, f64)> = (0..m).map(|_| (rng.below(n), rng.below(n), wclass.draw(&mut rng))).filter(|e| specs.self_loops || e.0 != e.1).collect();
+            ctx::count("reach:community-with-more-than-1000-inner-edges");
+            GCase { specs, names, edges, family: "many-parallel-edges", wclass }
+        } else if r % 250 == 249 {
             let n = *rng.pick(&[63usize, 64, 65, 128, 192]);
             ctx::count("reach:node-count-around-multiple-of-64");
             gen_case(*rng.pick(&kinds), "gnp_sparse", n, *rng.pick(&[WClass::Unweighted, WClass::Exact]), &GenOpts { self_loops: rng.coin(), parallel: rng.coin(), shuffle_edges: true }, &mut rng)
@@ -660,8 +864,12 @@ pub fn run_c12(a: &Args) {
         let kind = kind_class(&g);
         let n = d.n;
         let modes: Vec<bool> = if case.wclass.weighted() { vec![true, false] } else { vec![false] };
+        // node names of another type, whose printed form is shared by several nodes
+        if r % 10 == 3 && n >= 2 {
+            c12_tagged_names(&case, &d, &mut rng, &kind);
+        }
         // a random true partition, possibly with an empty community
-        let k = rng.range(1, n.min(6));
+        let k = if case.family == "many-parallel-edges" { rng.range(1, 2) } else { rng.range(1, n.min(6)) };
         let comm: Vec<usize> = (0..n).map(|_| rng.below(k)).collect();
         // re-used Arcs of one edge object (vec![edge; k]) are covered by the builder below
         let mut fam: Vec<HashSet<String>> = vec![HashSet::new(); k];
@@ -788,6 +996,71 @@ fn ring_of_cliques(specs: Specs, cliques: usize, size: usize, wclass: WClass, rn
     }
     rng.shuffle(&mut edges);
     GCase { specs, names, edges, family: "ring_of_cliques", wclass }
+}
+
+/// Louvain on `Graph<i32, ()>`: names such as -50, -13, 9, 10, 100 sort differently as numbers
+/// and as text. Levels must be nested partitions of exactly these names and, on single-edge
+/// graphs, the modularity (oracle, evaluated on the isomorphic String-named graph) must not decrease.
+#[allow(clippy::too_many_arguments)]
+fn c13_integer_names(d: &Dense, specs: Specs, weighted: bool, gamma: f64, threshold: Option<f64>, seed: u64, kind: &str, opts: &Value) {
+    let n = d.n;
+    let name = |i: usize| -> i32 { ((i as i32 * 37) % 211) - 50 + if i % 5 == 0 { 1000 } else { 0 } };
+    let mut g: Graph<i32, ()> = Graph::new(specs.to_real());
+    for i in 0..n {
+        g.add_node(graphrs::Node::from_name(name(i)));
+    }
+    for (u, v, w) in &d.edges {
+        let _ = g.add_edge(std::sync::Arc::new(graphrs::Edge { u: name(*u), v: name(*v), attributes: None, weight: *w }));
+    }
+    if g.get_all_edges().len() != d.edges.len() {
+        return;
+    }
+    let back: HashMap<i32, usize> = (0..n).map(|i| (name(i), i)).collect();
+    let fail = |class: &str, detail: Value| {
+        ctx::violation(&format!("C13|louvain_partitions|{}:integer-names|{}", class, kind), &format!("louvain_partitions on integer node names: {}", class), json!({"detail": detail, "options": opts, "names": (0..n).map(name).collect::<Vec<_>>(), "edges": d.edges.iter().map(|(u, v, w)| json!([name(*u), name(*v), w])).collect::<Vec<_>>()}));
+    };
+    graphrs::verif_hooks::take_ticks("louvain_sweep");
+    graphrs::verif_hooks::take_ticks("louvain_level");
+    ctx::eval(1);
+    ctx::count("reach:integer-node-names");
+    let levels = match guard("louvain_partitions", || louvain::louvain_partitions(&g, weighted, Some(gamma), threshold, Some(seed))) {
+        Ok(Ok(l)) => l,
+        Ok(Err(e)) => return fail(&format!("error:{}", err_name(&e.kind)), json!(null)),
+        Err(c) => return fail(&c.class(), c.json()),
+    };
+    let mut prev_comm: Option<Vec<usize>> = None;
+    let singles: Vec<usize> = (0..n).collect();
+    let mut prev_q = if !specs.multi { Some(oracle::modularity(d, &singles, weighted, gamma)) } else { None };
+    for (li, level) in levels.iter().enumerate() {
+        let mut comm = vec![usize::MAX; n];
+        for (ci, c) in level.iter().enumerate() {
+            for x in c {
+                match back.get(x) {
+                    Some(i) if comm[*i] == usize::MAX => comm[*i] = ci,
+                    _ => return fail("level-is-not-a-partition-of-the-node-names", json!({"level": li, "name": x})),
+                }
+            }
+        }
+        if comm.iter().any(|c| *c == usize::MAX) {
+            return fail("node-missing-from-level", json!({"level": li}));
+        }
+        if let Some(pc) = &prev_comm {
+            let mut map: HashMap<usize, usize> = HashMap::new();
+            for i in 0..n {
+                if *map.entry(pc[i]).or_insert(comm[i]) != comm[i] {
+                    return fail("level-not-a-coarsening-of-the-previous-one", json!({"level": li}));
+                }
+            }
+        }
+        if let Some(pq) = prev_q {
+            let q = oracle::modularity(d, &comm, weighted, gamma);
+            if q < pq - 1e-9 {
+                return fail(if li == 0 { "first-level-worse-than-singletons" } else { "modularity-decreased-between-levels" }, json!({"level": li, "previous": pq, "this": q}));
+            }
+            prev_q = Some(q);
+        }
+        prev_comm = Some(comm);
+    }
 }
 
 pub fn run_c13(a: &Args) {
@@ -1063,6 +1336,10 @@ pub fn run_c13(a: &Args) {
                     fail("louvain_communities", "differs-from-last-level-of-louvain_partitions", json!({"got": canon_partition(&last), "last_level": canon_partition(levels.last().unwrap())}));
                 }
             }
+        }
+        // the same graph with integer node names whose numeric and textual orders differ
+        if idx % 8 == 5 && n <= 60 {
+            c13_integer_names(&d, case.effective_specs(), weighted, gamma, threshold_arg, seed, &kind, &opts);
         }
         crate::ctx::set_budget("louvain_sweep", None);
         crate::ctx::set_budget("louvain_level", None);
